@@ -49,7 +49,7 @@ EXACT_TOL = 1e-9
 # twice (each ±5e-9, amplified by 2|X|·d in the spectra): 5e-7·max(1,|a|,|b|) bounds both
 FLOAT_TOL = 5e-7
 MON_TOL = 2e-6
-GAP_MIN = 1e-4      # relative gap between distinct |q|² keys below which the groupby is not judged
+GAP_MIN = 1e-6      # relative gap between distinct |q|² keys below which the groupby is not judged (the code groups |q| at 1e-8)
 TIE_MIN = 1e-3      # distance of |q|·1e8 from a rounding tie below which the groupby is not judged
 
 
@@ -131,6 +131,15 @@ def gen_field(rng, N, d, pos, kind=None):
     return kind, v, None
 
 
+def other_unit(rng, v, p=0.25):
+    """the field in another unit (× 10^k) with probability p: PR and the phase quotient do not depend on it, alignment scales with its
+    square, divergence / curl / the transform linearly — an absolute guard in a denominator shows up here"""
+    if rng.random() >= p:
+        return v
+    k = rng.choice([-7, -5, 6])
+    return [[x if Fraction(x) == 0 else f"{x}e{k}" for x in row] for row in v]
+
+
 def gen_nb(rng, N, edge=False):
     nb = []
     for i in range(N):
@@ -151,6 +160,7 @@ def gen_pr(rng, edge=False):
     kind, v, A = gen_field(rng, N, d, pos)
     if edge:
         kind, v = "zero", [["0.000"] * d for _ in range(N)]
+    v = other_unit(rng, v)
     return {"op": "pr", "N": N, "d": d, "field": kind, "v": v, "scale": dec(rng, 0.2, 3, 2) if rng.random() < .8 else "-1.50"}
 
 
@@ -164,6 +174,7 @@ def gen_nbcase(rng, edge=False):
     order = list(range(N))
     if rng.random() < 0.3:
         rng.shuffle(order)
+    v = other_unit(rng, v)
     return {"op": "nb", "N": N, "d": d, "field": kind, "v": v, "nb": nb, "order": order, "edge": edge}
 
 
@@ -253,6 +264,9 @@ def gen_dec(rng, edge=False):
         L = [dec(rng, 3, 9, 2)] * d
     else:
         L = [dec(rng, 3, 9, 2) for _ in range(d)]
+    if rng.random() < 0.2:
+        # nearly equal edges: the shells of (1,0,…) and (0,1,…) differ by ~1e-5 in |q| — distinct, not to be averaged together
+        L = [L[0]] + [format(float(Fraction(L[0]) + Fraction(rng.choice([4, 7, 10, -5, 12]), 10 ** 4) * j), ".4f") for j in range(1, d)]
     pos = gen_positions(rng, N, d, L)
     kind, v, A = gen_field(rng, N, d, pos)
     nq = rng.randint(1, 7)
